@@ -234,6 +234,9 @@ Lemma prefix_rejected_utf : forall v p q, len v < 65536 -> q <> [] ->
   write_utf v = p ++ q -> exists e, read_utf true p = Err e.
 Proof. exact (pre_of _ _ _ codec_utf). Qed.
 
+Lemma alloc_bounded_utf : forall fx1 s n r, wf_bytes s -> read_uint fx1 2 s = Ok (n, r) -> n < 65536.
+Proof. exact alloc_bounded_utf_lemma. Qed.
+
 (* ---------- resource keys ---------- *)
 
 Lemma roundtrip_key : forall k e rest, dom_key k -> write_key k = Ok e -> read_key (e ++ rest) = Ok (k, rest).
@@ -271,6 +274,20 @@ Proof. exact (rt_of _ _ _ codec_minimal_key). Qed.
 Lemma prefix_rejected_minimal_key : forall k p q, dom_key k /\ dom_string0 (key_minimal k) -> q <> [] ->
   write_minimal_key k = p ++ q -> exists e, read_minimal_key true p = Err e.
 Proof. exact (pre_of _ _ _ codec_minimal_key). Qed.
+
+(* ---------- the counted loops of the model are the unbounded Go loops ---------- *)
+
+Lemma counted_loop_fuel_irrelevant :
+  (forall {A} (d : dec_t A), (forall s a r, d s = Ok (a, r) -> (length r < length s)%nat) ->
+     forall f1 f2 n s, (length s < f1)%nat -> (length s < f2)%nat -> read_n d f1 n s = read_n d f2 n s) /\
+  (forall s a r, read_string s = Ok (a, r) -> (length r < length s)%nat) /\
+  (forall s a r, read_varint s = Ok (a, r) -> (length r < length s)%nat) /\
+  (forall s a r, read_property s = Ok (a, r) -> (length r < length s)%nat) /\
+  (forall s a r, read_key s = Ok (a, r) -> (length r < length s)%nat).
+Proof.
+  split; [intros A d; exact (read_n_fuel d)|]. split; [exact (progress_string default_max)|].
+  split; [exact progress_varint|]. split; [exact progress_property | exact progress_key].
+Qed.
 
 (* ---------- all spec codecs at once ---------- *)
 
